@@ -234,6 +234,9 @@ type MapV struct {
 	ikeys   map[int64]*MapEntry  // constant int keys
 	n       int
 	symKeys int // number of live entries with symbolic keys
+	// deferred updates with symbolic keys (flushed before any read of the map)
+	pendingK []Value
+	pendingV []Value
 }
 
 func newMap() *MapV { return &MapV{index: map[string]*MapEntry{}, ikeys: map[int64]*MapEntry{}} }
